@@ -1822,7 +1822,7 @@ def spell_call_arg(kind, arg):
 
 def gen_macro_program(seed, bad=None):
     """C13: a program using macros (nested calls, every argument kind) and, from the same AST, its hand-inlined twin.
-    bad: None | 'arity' | 'kind'  - deliberately ill-formed call (must be diagnosed)"""
+    bad: None | 'arity' | 'kind' | 'surplus' - deliberately ill-formed call (must be diagnosed)"""
     r = random.Random(seed)
     A = list(b'abcd')
     outs = [{'name': 'n', 'type': 'int', 'signed': None, 'width': None, 'default': 0}, {'name': 'k', 'type': 'int', 'signed': None, 'width': 2, 'default': 1},
@@ -1892,6 +1892,15 @@ def gen_macro_program(seed, bad=None):
     elif bad == 'kind':
         stop['argv'][1] = {'k': 'num', 'v': 5}            # a number where a finishcode is declared
         stop['_kinds'] = ['loop', 'expr', 'expr']
+    elif bad == 'surplus':
+        # one argument too many: a well-formed expression, an undeclared name, a loop name, a regex - at the end or in front
+        x = r.choice([{'k': 'num', 'v': 7}, 'nosuchname', 'L', {'k': 're', 'r': {'k': 'plus', 'c': {'k': 'ch', 'c': 97}}, 'bin': False}, 'n'])
+        if isinstance(x, dict) and x.get('k') == 're':
+            x = '/a+/'
+        tgt = r.choice([c for c in loop_body if c['t'] == 'call'])
+        kinds = [k for k, n in [m for m in macros if m['name'] == tgt['n']][0]['params']]
+        tgt['argv'] = list(tgt['argv']) + [x]
+        tgt['_kinds'] = kinds + ['expr']
     return p, spell_program(p), twin, spell_program(twin)
 
 
@@ -1945,8 +1954,22 @@ def gen_pair_program(seed):
         A = [{'t': 'match', 'm': re_({'k': 'range', 'c': cls(), 'n': 1, 'm': 3})}]
     else:
         A = [{'t': 'loop', 'name': None, 'b': [{'t': 'match', 'm': re_({'k': 'plus', 'c': cls()})}, {'t': 'match', 'm': re_({'k': 'opt', 'c': {'k': 'ch', 'c': 44}})}]}]
-    kb = r.randrange(4)
-    if kb == 0:
+    kb = r.randrange(6)
+    outs = []
+    if kb >= 4:
+        # B is an if / else on an output: each branch starts with its own set (often inverted, so that a byte is excluded explicitly
+        # by one branch and accepted only through the wildcard move of the other)
+        def icls():
+            if r.random() < 0.6:
+                return {'k': 'set', 'inv': True, 'items': [['ch', r.randint(97, 104)] for _ in range(r.randint(1, 2))]}
+            return cls() if r.random() < 0.7 else {'k': 'any'}
+        outs = [{'name': 'b0', 'type': 'bool', 'default': r.choice([None, 1])}]
+        br = [{'c': {'k': 'var', 'name': 'b0'}, 'b': [{'t': 'match', 'm': re_(icls())}]}]
+        if kb == 5:
+            outs.append({'name': 'n0', 'type': 'int', 'signed': None, 'width': None, 'default': r.choice([None, 3])})
+            br.append({'c': {'k': 'bin', 'op': '>', 'l': {'k': 'var', 'name': 'n0'}, 'r': {'k': 'num', 'v': 2}}, 'b': [{'t': 'match', 'm': re_(icls())}]})
+        B = [{'t': 'if', 'br': br, 'els': [{'t': 'match', 'm': re_(icls())}]}]
+    elif kb == 0:
         B = [{'t': 'match', 'm': re_(cls())}]
     elif kb == 1:
         B = [{'t': 'match', 'm': {'k': 'stri', 'bytes': [r.randint(97, 104)]}}]
@@ -1955,5 +1978,5 @@ def gen_pair_program(seed):
     else:
         B = [{'t': 'opt', 'b': [{'t': 'match', 'm': re_(cls())}]}, {'t': 'match', 'm': {'k': 'str', 'bytes': [33]}}]
     body = A + B + [{'t': 'match', 'm': {'k': 'str', 'bytes': [46]}}]
-    p = _mk([], [], [], [], body)
+    p = _mk(outs, [], [], [], body)
     return p, spell_program(p)
